@@ -24,8 +24,39 @@ def listen_only_lemma(E):
         E.prove('listen-only:every-other-response-is-to-be-sent[%s]' % q.split('.')[-1], E.get(m, 'should_respond') is True)
 
 
+def encodable_lemma(fc):
+    """the serve lemmas take "encode() returns some bytes" for granted: whatever a read request asks for (any quantity, any address, any
+    store), the response its real execute() returns - normal or exception - can be put on the wire (its real encode() raises nothing), so
+    that the one response is in fact sent"""
+    from . import store_contracts as ST, msgs as M
+
+    def lemma(E):
+        ctx = ST.slave_context(E, layout='seq')
+        a, c = E.int('address', 0, 65536), E.int('count', 0, 65536)
+        if fc == 23:
+            vals = E.ints('write_values', 0, 65536, 0, 130)
+            req = M.request(E, 23, read_address=a, read_count=c, write_address=E.int('write_address', 0, 65536), write_count=L.length(vals),
+                            write_byte_count=2 * L.length(vals), write_registers=vals)
+        else:
+            req = M.request(E, fc, address=a, count=c)
+        resp = E.method(req, 'execute', ctx)
+        out = E.attempt(lambda: E.method(resp, 'encode'))
+        E.prove('encodable:the-response-execute-returned-can-be-encoded', out.ok, raised=(out.exc.cls if not out.ok else None))
+        if out.ok:
+            E.prove('encodable:it-fits-a-pdu', 1 + L.length(out.value) <= 253)
+    return lemma
+
+
 def get_units():
-    us = [Unit('%s/listen_only' % PROP, listen_only_lemma, [PROP], functions=['pymodbus.diag_message.ForceListenOnlyModeRequest.execute', 'pymodbus.pdu.ModbusResponse.__init__'])]
+    from . import store_contracts as _ST, codecs as _C, codec_contracts as _K, msgs as _M
+    from pyvc import lang as L
+    globals()['L'] = L
+    loops = {}
+    for c in _C.all_codecs():
+        loops.update(c.loops)
+    enc_units = [Unit('%s/encodable.fc%02d' % (PROP, fc), encodable_lemma(fc), [PROP], contracts=_ST.SLAVE_CONTRACTS + (_K.PackBitstring(),), loops=loops,
+                      functions=[_M.REQ[fc] + '.execute', _M.RSP[fc] + '.encode']) for fc in (1, 2, 3, 4, 23)]
+    us = enc_units + [Unit('%s/listen_only' % PROP, listen_only_lemma, [PROP], functions=['pymodbus.diag_message.ForceListenOnlyModeRequest.execute', 'pymodbus.pdu.ModbusResponse.__init__'])]
     for fe in S.FRONTENDS:
         us.append(Unit('%s/unicast.%s' % (PROP, fe), S.serve_unicast(fe, PROP, finding='C09-F1'), [PROP], functions=S.FUNCS[fe]))
         if S.FRONTENDS[fe][2]:
